@@ -5,6 +5,12 @@ appearance) x every replication setting x one key per token range, per exact rin
 wrapping past the last token is handed to the real `Metadata.rebuild_token_map` +
 `Metadata.get_replicas(keyspace, key)`; the answer is compared, as a set and for repeats, with the
 independent reference `vt.spec.placement` (Cassandra 4.x SimpleStrategy / NetworkTopologyStrategy).
+
+The per-host token lists are handed over the way the control connection hands them over: the
+`tokens set<text>` column of system.local / system.peers, i.e. a `cassandra.util.SortedSet` of
+*strings*, ordered as text (which is not token order for decimal tokens of different signs or
+widths); SimpleStrategy rings are also fed in ring order and in descending order.  A second family
+uses explicitly written small decimal tokens of mixed signs and widths (queried by token).
 """
 import itertools
 
@@ -21,7 +27,13 @@ META = {
             'racks, SimpleStrategy rf 1-4 and transient 3/1, 2/1, NetworkTopologyStrategy with every per-DC rf in 0..min(4, nodes+1) (quick) / 0..4 (thorough), also for a DC without '
             'nodes, and transient 3/1, 2/1; keys hashing exactly onto each ring token, between each two tokens, before the first and after the '
             'last token.  Oracle: set(Metadata.get_replicas(ks, key)) == set of the reference (Cassandra 4.x calculateNaturalReplicas) and no '
-            'host listed twice.  Murmur3 rings for everything, MD5 and ByteOrdered rings for SimpleStrategy.',
+            'host listed twice.  Murmur3 rings for everything, MD5 and ByteOrdered rings for SimpleStrategy.  Delivery of the ring to '
+            'Metadata.rebuild_token_map: every host\'s tokens as the strings of the system tables, in a SortedSet of str (TEXT order, as the '
+            'control connection delivers set<text>; the ring tokens are 64-bit / 127-bit key hashes of both signs and 18-19 / 38-39 digits) for every ring; '
+            'SimpleStrategy rings also as lists in ring order and in descending order.  Explicit-token family: every subset of 8 written-out decimal '
+            'tokens of mixed signs and widths (Murmur3: -100 -10 -9 0 5 10 100 9e18; RandomPartitioner: 5 10 12 100 1e37 5e37 12e37 17e37) x every '
+            'assignment to <=3 hosts x <=3 tokens and <=4 hosts x <=2 tokens x the three delivery orders x SimpleStrategy rf 1-3 and NTS 1+1 over two '
+            'DCs; queried with TokenMap.get_replicas(ks, token) at every ring token, between neighbours, before the first and after the last.',
     'note': 'The reference is cross-checked against the expectations of tests/unit/test_metadata.py and against a second, 2.x-style '
             'formulation of NetworkTopologyStrategy on 8e4 (quick) / 2.7e5 (thorough) small rings (2.1e6 with python -m vt.spec.placement --full).  For transient replication the driver reports full replicas only; '
             'for NetworkTopologyStrategy only "subset of Cassandra\'s replicas, no repeats" is demanded there.',
@@ -137,29 +149,92 @@ def token_string(tclass, tok):
     return tok.hex() if tclass == 'bytes' else str(tok)
 
 
+ORDERS = ('text', 'ring', 'desc')
+
+
+def deliver(strings, order):
+    """one host's token strings (given in ring order) in the container / order they are handed to
+    rebuild_token_map.  'text' is what the control connection passes on: the deserialised set<text>
+    column, a SortedSet of str."""
+    if order == 'text':
+        from cassandra.util import SortedSet
+        return SortedSet(strings)
+    if order == 'ring':
+        return list(strings)
+    if order == 'desc':
+        return list(reversed(strings))
+    raise HarnessError('unknown delivery order %r' % (order,))
+
+
+# written-out decimal tokens of mixed signs and widths (text order != token order)
+EXPLICIT_POOLS = {
+    'murmur3': (-100, -10, -9, 0, 5, 10, 100, 9 * 10 ** 18),
+    'md5': (5, 10, 12, 100, 10 ** 37, 5 * 10 ** 37, 12 * 10 ** 37, 17 * 10 ** 37),
+}
+EXPLICIT_SETTINGS = [('simple', {'replication_factor': '1'}), ('simple', {'replication_factor': '2'}),
+                     ('simple', {'replication_factor': '3'}), ('nts', {'dc0': '1', 'dc1': '1'})]
+
+
+def explicit_queries(tokens):
+    """every ring token, an integer strictly between neighbours (where there is one), one before the
+    first and one after the last"""
+    out = [tokens[0] - 1]
+    for i, t in enumerate(tokens):
+        if i and (tokens[i - 1] + t) // 2 > tokens[i - 1]:
+            out.append((tokens[i - 1] + t) // 2)
+        out.append(t)
+    out.append(tokens[-1] + 1)
+    return out
+
+
+def explicit_locs(nhosts):
+    return tuple(('dc%d' % (i % 2), 'r0') for i in range(nhosts))
+
+
 # ------------------------------------------------------------------------------------ world
 class World(object):
     """real Metadata + token map for one ring"""
-    def __init__(self, seq, locs, tclass, settings):
+    def __init__(self, seq, locs, tclass, settings, order='ring', tokens=None):
+        """order: how each host's token strings are delivered (see deliver()).  tokens: explicit
+        ascending integer ring tokens instead of the reference tokens of the fixed keys; such a
+        world is queried by token (query_tokens), not by key."""
         from cassandra.metadata import Metadata, KeyspaceMetadata
         from cassandra.pool import Host
         from cassandra.policies import SimpleConvictionPolicy
         n = len(seq)
-        keys = keys_for(tclass)
-        if 2 * n + 1 > len(keys):
-            raise HarnessError('ring too long for the key pool')
+        if tokens is None:
+            keys = keys_for(tclass)
+            if 2 * n + 1 > len(keys):
+                raise HarnessError('ring too long for the key pool')
+            ring_tokens = [keys[2 * i + 1][0] for i in range(n)]
+            self.query_keys = [keys[i] for i in range(2 * n + 1)]                       # (ref token, key)
+            self.query_tokens = None
+        else:
+            ring_tokens = list(tokens)
+            if len(ring_tokens) != n or any(a >= b for a, b in zip(ring_tokens, ring_tokens[1:])):
+                raise HarnessError('explicit tokens must be ascending, one per ring position')
+            self.query_keys = None
+            self.query_tokens = explicit_queries(ring_tokens)
         self.tclass = tclass
+        self.order = order
         self.nhosts = max(seq) + 1
         self.names = ['h%d' % i for i in range(self.nhosts)]
         self.hosts = [Host('10.0.0.%d' % (i + 1), SimpleConvictionPolicy, locs[i][0], locs[i][1])
                       for i in range(self.nhosts)]
         self.name_of = dict((h, nm) for h, nm in zip(self.hosts, self.names))
-        self.ring = [(keys[2 * i + 1][0], self.names[seq[i]]) for i in range(n)]      # reference view
+        self.ring = [(ring_tokens[i], self.names[seq[i]]) for i in range(n)]      # reference view
         self.locs = dict((self.names[i], locs[i]) for i in range(self.nhosts))
-        self.query_keys = [keys[i] for i in range(2 * n + 1)]                       # (ref token, key)
-        tm = {}
+        per_host = {}
         for i in range(n):
-            tm.setdefault(self.hosts[seq[i]], []).append(token_string(tclass, keys[2 * i + 1][0]))
+            per_host.setdefault(seq[i], []).append(ring_tokens[i])
+        tm = {}
+        self.delivery_differs = False       # some host's list is not handed over in token order
+        for h in per_host:      # hosts in order of first appearance in the ring
+            strings = [token_string(tclass, t) for t in per_host[h]]
+            got = deliver(strings, order)
+            tm[self.hosts[h]] = got
+            if list(got) != strings:
+                self.delivery_differs = True
         self.metadata = Metadata()
         for h in self.hosts:
             self.metadata.add_or_return_host(h)
@@ -233,59 +308,99 @@ def is_nontrivial(kind, opts, w, tok, allr):
     return len(set(naive)) != len(naive) or set(naive) != set(allr)
 
 
-def eval_world(part, seq, locs, tclass, settings):
-    try:
-        w = World(seq, locs, tclass, settings)
-    except HarnessError:
-        raise
+def ask(w, ks, ki):
+    """the driver's answer for query number ki of world w -> (reference token, key or None, hosts)"""
+    if w.query_tokens is None:
+        tok, key = w.query_keys[ki]
+        return tok, key, w.metadata.get_replicas(ks, key)
+    tok = w.query_tokens[ki]
+    tm = w.metadata.token_map
+    return tok, None, tm.get_replicas(ks, tm.token_class.from_string(str(tok)))
+
+
+def eval_world(part, seq, locs, tclass, settings, order='text', tokens=None):
+    w = World(seq, locs, tclass, settings, order, tokens)
     memo = {}
     nevals = 0
+    nq = len(w.query_keys if tokens is None else w.query_tokens)
+
+    def mkcase(ki):
+        case = {'seq': list(seq), 'locs': [list(x) for x in locs], 'tclass': tclass,
+                'setting': [kind, opts], 'key_index': ki, 'order': order}
+        if tokens is not None:
+            case['tokens'] = [str(t) for t in tokens]
+        return case
+
     for si, ((kind, opts), ks) in enumerate(zip(settings, w.ksnames)):
         nontrivial = False
-        for ki, (tok, key) in enumerate(w.query_keys):
+        for ki in range(nq):
             nevals += 1
             nmemo = len(memo)
+            tok = w.query_keys[ki][0] if tokens is None else w.query_tokens[ki]
             allr, full, transient = reference(kind, opts, w.ring, w.locs, tok, memo, si)
             try:
-                got = w.metadata.get_replicas(ks, key)
+                _, key, got = ask(w, ks, ki)
                 got_names = [w.name_of[h] for h in got]
             except Exception as e:
-                case = {'seq': list(seq), 'locs': [list(x) for x in locs], 'tclass': tclass,
-                        'setting': [kind, opts], 'key_index': ki}
+                case = mkcase(ki)
                 part.violation('C26/%s/raises/%s' % (kind, type(e).__name__), 'get_replicas raised %r for %r' % (e, case), case)
                 continue
             if got_names != allr:      # fast path: identical lists need no judging
-                case = {'seq': list(seq), 'locs': [list(x) for x in locs], 'tclass': tclass,
-                        'setting': [kind, opts], 'key_index': ki}
-                judge(part, kind, opts, got_names, allr, full, transient, case)
+                judge(part, kind, opts, got_names, allr, full, transient, mkcase(ki))
             part.outcome((kind, 'transient' if transient else 'plain', len(got_names)))
             if not nontrivial and len(memo) != nmemo:
                 nontrivial = is_nontrivial(kind, opts, w, tok, allr)
             if ki == 1:
-                part.sample({'ring': [[str(t), h] for t, h in w.ring], 'locs': w.locs, 'setting': [kind, opts],
-                             'key': key, 'driver': got_names, 'cassandra': allr}, limit=2)
+                part.sample({'ring': [[str(t), h] for t, h in w.ring], 'locs': w.locs, 'setting': [kind, opts], 'order': order,
+                             'key': key if key is not None else 'token %d' % tok, 'driver': got_names, 'cassandra': allr}, limit=2)
         part.count('ring_settings')
         if nontrivial:
             part.count('distinct_nontrivial')
     part.count('rings')
+    part.count('rings_order_' + order)
+    if w.delivery_differs:
+        part.count('rings_delivered_out_of_token_order')
+    if tokens is not None:
+        part.count('rings_explicit_tokens')
     part.count('evaluations', nevals)
 
 
 def run_unit(unit):
     part = Part()
-    seqs, max_dcs, tclasses, full_grid = unit
+    if unit[0] == 'explicit':
+        for tclass, seq, tokens in unit[1]:
+            for order in ORDERS:
+                eval_world(part, seq, explicit_locs(max(seq) + 1), tclass, EXPLICIT_SETTINGS, order, tokens)
+        return part
+    _, seqs, max_dcs, tclasses, full_grid = unit
     for seq in seqs:
         nh = max(seq) + 1
         if 'murmur3' in tclasses:
-            # SimpleStrategy does not look at the layout: once per token assignment
-            eval_world(part, seq, layouts(nh, 1, 1)[0], 'murmur3', simple_settings())
+            # SimpleStrategy does not look at the layout: once per token assignment (and delivery order)
+            for order in ORDERS:
+                eval_world(part, seq, layouts(nh, 1, 1)[0], 'murmur3', simple_settings(), order)
             for locs in layouts(nh, max_dcs, 3):
                 per_dc = (sum(1 for d, _ in locs if d == 'dc0'), sum(1 for d, _ in locs if d == 'dc1'))
-                eval_world(part, seq, locs, 'murmur3', nts_settings(per_dc, full_grid))
+                eval_world(part, seq, locs, 'murmur3', nts_settings(per_dc, full_grid), 'text')
         for tc in tclasses:
             if tc != 'murmur3':
-                eval_world(part, seq, layouts(nh, 1, 1)[0], tc, simple_settings()[:3])
+                for order in ORDERS:
+                    eval_world(part, seq, layouts(nh, 1, 1)[0], tc, simple_settings()[:3], order)
     return part
+
+
+def explicit_work():
+    """(partitioner, token-to-host assignment, token subset): every subset of the pool x every
+    assignment of that many tokens to <=3 hosts x <=3 tokens or <=4 hosts x <=2 tokens"""
+    seqs = sorted(set(owner_sequences(3, 3)) | set(owner_sequences(4, 2)))
+    work = []
+    for tclass in sorted(EXPLICIT_POOLS):
+        pool = EXPLICIT_POOLS[tclass]
+        for seq in seqs:
+            if len(seq) <= len(pool):
+                for tokens in itertools.combinations(pool, len(seq)):
+                    work.append((tclass, seq, tokens))
+    return work
 
 
 def families(ctx):
@@ -316,17 +431,30 @@ def run(ctx):
         for i in range(nunits):
             chunk = seqs[i::nunits]
             if chunk:
-                units.append((chunk, md, ('murmur3', 'md5', 'bytes'), ctx.thorough))
+                units.append(('ring', chunk, md, ('murmur3', 'md5', 'bytes'), ctx.thorough))
+    ework = ctx.rotate(explicit_work())
+    for i in range(nunits):
+        chunk = ework[i::nunits]
+        if chunk:
+            units.append(('explicit', chunk))
     for part in ctx.pmap(run_unit, units):
         ctx.merge(part)
     ctx.cov['rule'] = ('families (max hosts, max tokens per host, max DCs) = %r: %d token-to-host assignments (restricted growth strings) x all '
                        'layouts over DCs x <=3 racks x settings (SimpleStrategy 6; NTS: per-DC rf grid %s + 4 transient settings, rf in {0,2} for a DC without nodes) x (2*tokens+1) keys; counters: rings = (assignment, '
                        'layout, partitioner) worlds built, ring_settings = worlds x replication settings, evaluations = get_replicas calls compared. '
                        'non-trivial = ring_setting with a key for which the owners of the next rf tokens (per DC) are not the answer: a further token '
-                       'of an already chosen host is skipped, or rack awareness / node-count capping changes the choice' % (fams, len(work), '0..4 x 0..4' if ctx.thorough else '0..min(4, nodes in DC + 1)'))
+                       'of an already chosen host is skipped, or rack awareness / node-count capping changes the choice.  Delivery to rebuild_token_map: '
+                       'rings_order_text = worlds whose per-host token strings are a SortedSet of str (all of them once), rings_order_ring / _desc = '
+                       'SimpleStrategy worlds fed again as lists in ring / descending order; rings_delivered_out_of_token_order = worlds in which at least '
+                       'one host\'s list is not in token order as delivered.  rings_explicit_tokens = %d (partitioner, assignment, token subset) '
+                       'combinations of the explicit-token family x 3 delivery orders, queried by token'
+                       % (fams, len(work), '0..4 x 0..4' if ctx.thorough else '0..min(4, nodes in DC + 1)', len(ework)))
     ctx.cov['exhaustive'] = True
     ctx.assume('every host has a datacenter and a rack (hosts without location info are not generated)')
-    ctx.assume('ring tokens are the reference tokens of fixed keys; only their order matters to placement')
+    ctx.assume('ring tokens are the reference tokens of fixed keys (only their order matters to placement), or, in the explicit-token '
+               'family, written-out integers; the latter are queried through Metadata.token_map.get_replicas(keyspace, token), the call '
+               'Metadata.get_replicas(keyspace, key) makes after hashing the key (hashing is C08\'s subject)')
+    ctx.assume('the control connection hands rebuild_token_map the deserialised tokens set<text> column: a cassandra.util.SortedSet of str per host')
     ctx.assume('transient replication (N/T): the driver documents that it reports full replicas only; SimpleStrategy is compared '
                'with Cassandra\'s full replicas, NetworkTopologyStrategy only for subset-of-all-replicas and repeats '
                '(counter nts_transient_full_set_differs counts answers that are not exactly Cassandra\'s full replicas)')
@@ -336,11 +464,13 @@ def run(ctx):
 def replay(ctx, data):
     part = Part()
     kind, opts = data['setting']
-    w = World(tuple(data['seq']), [tuple(x) for x in data['locs']], data['tclass'], [(kind, opts)])
-    tok, key = w.query_keys[data['key_index']]
+    tokens = tuple(int(t) for t in data['tokens']) if data.get('tokens') else None
+    w = World(tuple(data['seq']), [tuple(x) for x in data['locs']], data['tclass'], [(kind, opts)],
+              data.get('order', 'ring'), tokens)
+    tok, key, hosts = ask(w, w.ksnames[0], data['key_index'])
     allr, full, transient = reference(kind, opts, w.ring, w.locs, tok)
-    got = [w.name_of[h] for h in w.metadata.get_replicas(w.ksnames[0], key)]
-    print('ring', w.ring, 'locs', w.locs, 'setting', kind, opts, 'key', key, 'token', tok)
+    got = [w.name_of[h] for h in hosts]
+    print('ring', w.ring, 'locs', w.locs, 'delivery', w.order, 'setting', kind, opts, 'key', key, 'token', tok)
     print('driver', got, 'cassandra', allr)
     judge(part, kind, opts, got, allr, full, transient, data)
     for fp, what, _ in part.violations:
